@@ -280,18 +280,33 @@ def jacobian(repo, rep):
 def dispatcher(repo, rep):
     fi = repo.func("wavespectra.input.dataset.read_dataset")
     sets = {}
+    TAGS = ("wavespectra", "ncswan", "ww3", "wwm", "era5", "ndbc")
+    tag_of = {}
     for n in ast.walk(fi.node):
-        if isinstance(n, ast.Assign) and isinstance(n.targets[0], ast.Name) and n.targets[0].id.startswith("vars_") and isinstance(n.value, ast.Set):
-            sets[n.targets[0].id] = frozenset(repo.const(fi.module, e) for e in n.value.elts)
+        if isinstance(n, ast.Assign) and isinstance(n.targets[0], ast.Name) and isinstance(n.value, ast.Set):
+            nm = n.targets[0].id
+            tag = next((t for t in TAGS if t in nm), None)
+            if tag is None:
+                continue
+            sets[nm] = frozenset(repo.const(fi.module, e) for e in n.value.elts)
+            tag_of[nm] = tag
     # the if / elif chain
     chain = []
+    disp = None
+    from ..astutil import returns as _rets
+    for rn, rv in _rets(fi.node):
+        if isinstance(rv, ast.Call) and isinstance(rv.func, ast.Name) and rv.args and unparse(rv.args[0]) == fi.params[0]:
+            disp = rv.func.id
+    if disp is None:
+        raise AnalysisError("read_dataset: final `return <reader>(dset, **kwargs)` not found")
+
     def walk_if(node):
         t = node.test
         if isinstance(t, ast.UnaryOp) and isinstance(t.op, ast.Not) and isinstance(t.operand, ast.BinOp) and isinstance(t.operand.op, ast.Sub):
             name = unparse(t.operand.left)
             target = None
             for s in node.body:
-                if isinstance(s, ast.Assign) and unparse(s.targets[0]) == "func":
+                if isinstance(s, ast.Assign) and unparse(s.targets[0]) == disp:
                     target = unparse(s.value)
                 if isinstance(s, ast.Return):
                     target = "return " + unparse(s.value)
@@ -317,14 +332,14 @@ def dispatcher(repo, rep):
                          f"every dataset matching {b} also matches the earlier, less specific {a}: it is dispatched to the wrong reader")
     rep.ok("R-C12-3", f"{fi.file} read_dataset", " -> ".join(a for a, _, _ in order), "no earlier identifying set is a subset of a later one")
     # contract: the reader bound in each branch renames that branch's identifying names
-    wavespectra_names = sets.get("vars_wavespectra", frozenset())
+    wavespectra_names = next((v for k, v in sets.items() if tag_of[k] == "wavespectra"), frozenset())
     for a, target, node in order:
         if target is None or target.startswith("return"):
             continue
         sym = repo.resolve_symbol(fi.module, target)
         if not isinstance(sym, FuncInfo):
             raise AnalysisError(f"read_dataset: reader {target} not resolved")
-        expect = a.replace("vars_", "from_")
+        expect = "from_" + tag_of[a]
         if sym.name != expect:
             rep.fail("R-C12-3", fi.file, node.lineno, fi.qualname, f"{a} -> {target}", f"branch identified as {a[5:]} must call {expect}")
             continue
@@ -336,7 +351,7 @@ def dispatcher(repo, rep):
         handled = {x for x in native if x in renamed or f"'{x}'" in body_txt or f".{x}" in body_txt}
         calls_rename = any(isinstance(c, ast.Call) and isinstance(c.func, ast.Attribute) and c.func.attr == "rename" for c in ast.walk(sym.node))
         if native and (not calls_rename or not native <= handled):
-            rep.fail("R-C12-3", fi.file, node.lineno, fi.qualname, f"elif not {a} - vars_dset: func = {target}",
+            rep.fail("R-C12-3", fi.file, node.lineno, fi.qualname, f"elif not {a} - vars_dset: func = {target}", anchor=f"read_dataset:{tag_of[a]}->{target}:no-rename", reason=
                      f"the dataset is identified by the native names {sorted(native)} but {target} does not map "
                      f"{sorted(native - handled) if calls_rename else sorted(native)} onto wavespectra names: the result keeps native variable / "
                      "dimension names")
